@@ -209,3 +209,12 @@ def ml_call_args(full, k, shown, c):
         return ''
     return (ml_call_args(full, k - 1, shown, c) + (',' if ml_call_args(full, k - 1, shown, c) != '' else '')
             + ml_call_arg(full[k - 1], shown, c))
+
+
+# ---------------------------------------------------------------- C10: enumeration classdef
+@spec()
+def ml_enum_text(e):
+    """enumeration classdef: the enumerators in declared order, numbered from 0 by position"""
+    return ('classdef ' + e.name + ' < uint32\n    enumeration\n        '
+            + '\n        '.join([x.name + '(' + int_str(i) + ')' for i, x in enumerate(e.enumerators)])
+            + '\n    end\nend\n')
